@@ -1,0 +1,62 @@
+//go:build verif
+
+// Contracts for deductive verification (comment-only; compiled only with -tags verif).
+package route
+
+// ---- C12: chain assembly ----
+
+//@ extern route.joinPaths(absolutePath, relativePath) r
+//@   allocates
+
+//@ extern route.Engine.addRoute(engine, method, path, handlers)
+//@   modifies *
+
+// combineHandlers returns a FRESH chain: the group's middleware followed by the given handlers,
+// shorter than the abort index (or it panics with "too many handlers").
+//@ func RouterGroup.combineHandlers(group, handlers) r
+//@   props C12
+//@   panics
+//@   allocates
+//@   top-ensures fresh(r) && len(r) < 63 && isConcat(r, group.Handlers, handlers)
+
+//@ func RouterGroup.Use(group, middleware) r
+//@   props C12
+//@   modifies group.Handlers, mem
+//@   allocates
+//@   top-ensures len(group.Handlers) == old(len(group.Handlers)) + len(middleware) && extends(group.Handlers, group.Handlers)
+//@   top-ensures forall(k, 0, len(middleware), group.Handlers[old(len(group.Handlers)) + k] == old(middleware[k]))
+
+//@ func RouterGroup.Group(group, relativePath, handlers) r
+//@   props C12
+//@   panics
+//@   allocates
+//@   top-ensures r != nil && fresh(r.Handlers) && isConcat(r.Handlers, group.Handlers, handlers)
+
+//@ func RouterGroup.handle(group, httpMethod, relativePath, handlers) r
+//@   props C12
+//@   panics
+//@   modifies *
+//@   assert before addRoute: fresh(handlers) && len(handlers) < 63 && isConcat(handlers, group.Handlers, old(handlers))
+
+//@ func Engine.NoRoute(engine, handlers)
+//@   props C12
+//@   panics
+//@   modifies engine.noRoute, engine.allNoRoute
+//@   allocates
+//@   top-ensures isConcat(engine.allNoRoute, engine.RouterGroup.Handlers, engine.noRoute) && sameSlice(engine.noRoute, handlers)
+
+//@ func Engine.NoMethod(engine, handlers)
+//@   props C12
+//@   panics
+//@   modifies engine.noMethod, engine.allNoMethod
+//@   allocates
+//@   top-ensures isConcat(engine.allNoMethod, engine.RouterGroup.Handlers, engine.noMethod) && sameSlice(engine.noMethod, handlers)
+
+//@ func Engine.Use(engine, middleware) r
+//@   props C12
+//@   panics
+//@   modifies engine.RouterGroup.Handlers, engine.allNoRoute, engine.allNoMethod, mem
+//@   allocates
+//@   top-ensures isConcat(engine.allNoRoute, engine.RouterGroup.Handlers, engine.noRoute)
+//@   top-ensures isConcat(engine.allNoMethod, engine.RouterGroup.Handlers, engine.noMethod)
+//@   top-ensures len(engine.RouterGroup.Handlers) == old(len(engine.RouterGroup.Handlers)) + len(middleware) && extends(engine.RouterGroup.Handlers, engine.RouterGroup.Handlers)
